@@ -907,6 +907,14 @@ func execSched(spec *RunSpec, st *Stats) *Violation {
 	for i, rs := range out.results {
 		for k, res := range rs {
 			if res.Panic != "" {
+				if expect[i][k].skip {
+					// the same call panics when run alone on a fresh instance: an input the library
+					// cannot handle is C01's subject (totality), not a consequence of sharing
+					if st != nil {
+						st.Inc("diag.panic_also_alone")
+					}
+					continue
+				}
 				return &Violation{Class: "panic", Client: i, Op: k, Detail: "panic in a worker: " + firstLine(res.Panic), Race: race}
 			}
 		}
